@@ -122,6 +122,17 @@ def _m_lib(mod, name):
     return dadi.Numerics.make_extrap_func(getattr(getattr(dadi, mod), name))
 
 
+@model('two_epoch_kw')
+def _m_two_epoch_kw():
+    """a user model with extra positional and keyword arguments (func_args / func_kwargs of the optimisers)"""
+    import dadi
+    ex = dadi.Numerics.make_extrap_func(dadi.Demographics1D.two_epoch)
+
+    def two_epoch_kw(params, ns, offset=0.0, pts=None, scale=1.0):
+        return ex([params[0] + offset, params[1]], ns, pts) * scale
+    return two_epoch_kw
+
+
 @model('growth_raw')
 def _m_growth_raw():
     import dadi
@@ -444,6 +455,7 @@ def _load():
     reg('S.pickle_roundtrip', lambda fs: __import__('pickle').loads(__import__('pickle').dumps(fs, protocol=2)), group='spectrum')
     reg('S.repr', lambda fs: repr(fs), group='spectrum')
     reg('S.str', lambda fs: str(fs), group='spectrum')
+    reg('mk_value', lambda v: v, group='make')
     reg('minus_ll', Inference.minus_ll, group='likelihood')
     reg('minus_ll_multinom', Inference.minus_ll_multinom, group='likelihood')
     reg('OPT.scipy', _scipy_opt, group='opthelp')
